@@ -159,3 +159,21 @@ Example c07_example :
   | _ => False
   end.
 Proof. vm_compute. split; [reflexivity|split; [reflexivity|exact I]]. Qed.
+
+(* non-vacuity of the builder theorems: an accepted UPDATE announcing 10.1.2.0/24 with ORIGIN, AS_PATH and NEXT_HOP goes through
+   from_update_message, add_announcements_from_pdu, add_withdrawals_from_pdu and into_message, and a message comes out *)
+Example c07_builder_example :
+  let b := Open.marker ++ [0; 41; 2; 0; 0; 0; 14] ++ [64; 1; 1; 0] ++ [64; 2; 0] ++ [64; 3; 4; 10; 0; 0; 1] ++ [24; 10; 1; 2] in
+  let cfg := mkSC true [] in
+  wf_bytesb b = true /\ (N.of_nat (3 * length b) <=? 65535) = true /\ sc_four cfg = true /\
+  match parse_update cfg b with
+  | Ok u => match a_pamap b u with
+            | Ok m => match add_announcements_from_pdu b u (rx_addpath cfg (fam_code Ipv4Unicast)) (mkB Ipv4Unicast None None m) with
+                      | Ok bd1 => match add_withdrawals_from_pdu b u (rx_addpath cfg (fam_code Ipv4Unicast)) bd1 with
+                                  | Ok bd2 => match into_message cfg bd2 with Ok (MOk m') => ann_of bd2 <> [] /\ length m' = 53%nat | _ => False end
+                                  | _ => False end
+                      | _ => False end
+            | _ => False end
+  | _ => False end.
+Proof. vm_compute. repeat split; discriminate. Qed.
+
